@@ -76,9 +76,14 @@ def run_history(rp, tasks, batches, extra=None, pilot_dies=None, waits=None):
     seen = []
     keep = app_callbacks(rp, tm, copy.deepcopy(extra), seen)
     # a second recording callback, registered after the application's callbacks (it is called behind them)
-    late = []
+    late, late_own = [], {}
     if extra is not None:
         tm.register_callback(lambda task, state: late.append([int(task.uid.split('.')[1]), state]))
+        # ... and one per task, registered for that task only (Task.register_callback): told every state of its task, up
+        # to and including the final one
+        for t in tasks:
+            late_own[t['uid']] = []
+            tm.register_callback((lambda task, state, u=t['uid']: late_own[u].append(state)), uid='task.%06d' % t['uid'])
     errs = []
     for bi, b in enumerate(batches):
         # `waits`: before batch bi the application waits (briefly) for a task to reach a state - Task.wait with a
@@ -107,6 +112,10 @@ def run_history(rp, tasks, batches, extra=None, pilot_dies=None, waits=None):
         return {'tasks': out_tasks, 'cbs': cbs, 'after_pilot_end': after}, errs
     if extra is not None and late != cbs:
         return {'tasks': out_tasks, 'cbs': cbs, 'callback_registered_last_saw': late}, errs
+    if extra is not None:
+        for u, own in late_own.items():
+            if own != [s_ for uu, s_ in cbs if uu == u]:
+                return {'tasks': out_tasks, 'cbs': cbs, 'callback_of_task_%d_saw' % u: own}, errs
     return {'tasks': out_tasks, 'cbs': cbs}, errs
 
 
